@@ -71,6 +71,12 @@ type Model struct {
 	Schema string      `json:"schema"`
 	Types  []TypeDef   `json:"types"`
 	Conds  []Condition `json:"conds,omitempty"`
+	// SparseMeta: the protobuf form carries relation metadata only where there is something to say (type
+	// restrictions or attribution), the way hand-written API models do; relations defined purely by rewrites have no
+	// metadata entry.
+	SparseMeta bool `json:"sparse_meta,omitempty"`
+	// Scaled names the dimension along which InflateGraph scaled the model up ("" = not scaled); informational.
+	Scaled string `json:"scaled,omitempty"`
 }
 
 func (r *Rewrite) Clone() *Rewrite {
@@ -85,7 +91,7 @@ func (r *Rewrite) Clone() *Rewrite {
 }
 
 func (m *Model) Clone() *Model {
-	c := &Model{Schema: m.Schema}
+	c := &Model{Schema: m.Schema, SparseMeta: m.SparseMeta, Scaled: m.Scaled}
 	for _, t := range m.Types {
 		ct := TypeDef{Name: t.Name, Module: t.Module, File: t.File}
 		for _, r := range t.Rels {
@@ -283,6 +289,9 @@ func (m *Model) Proto() *openfgav1.AuthorizationModel {
 				}
 				for _, x := range r.Restr {
 					rm.DirectlyRelatedUserTypes = append(rm.DirectlyRelatedUserTypes, x.Ref())
+				}
+				if m.SparseMeta && len(r.Restr) == 0 && r.Module == "" && r.File == "" && r.Rw.CountThis() == 0 {
+					continue
 				}
 				td.Metadata.Relations[r.Name] = rm
 			}
